@@ -749,6 +749,20 @@ pub fn run(ctx: &Ctx, replay_file: Option<String>) -> ! {
         replay::<Case, _>(ctx, &f, check);
     }
     let cs = cases(ctx.tier);
+    if std::env::var("VERIF_COUNT_ONLY").is_ok() {
+        let mut m: std::collections::BTreeMap<String, usize> = Default::default();
+        for c in cs.iter() {
+            let k = match c {
+                Case::Solve { k, tau8, .. } => format!("Solve k={} n={}", k, tau8.len()),
+                Case::Types { .. } => "Types".into(),
+                Case::Resolve { k, .. } => format!("Resolve k={}", k),
+                Case::Long { .. } => "Long".into(),
+            };
+            *m.entry(k).or_default() += 1;
+        }
+        eprintln!("{:#?}", m);
+        std::process::exit(0);
+    }
     let acc = explore(&cs, check);
     let meta = Meta::exploration(
         "order k = 2..4 (6); every knot vector of C14 with total interior multiplicity <= 3; data sites = EVERY n-subset \
